@@ -46,7 +46,7 @@ class MethodMixin:
         reg(iter, lambda a, k, n, f: a[0])
         reg(typing.cast, lambda a, k, n, f: a[1])
         reg(copy.copy, self.b_copy)
-        reg(copy.deepcopy, lambda a, k, n, f: self.snapshot(a[0]))
+        reg(copy.deepcopy, self.b_deepcopy)
         reg(operator.lt, lambda a, k, n, f: self.order('lt', a[0], a[1], n))
         reg(operator.le, lambda a, k, n, f: self.order('le', a[0], a[1], n))
         reg(operator.gt, lambda a, k, n, f: self.order('gt', a[0], a[1], n))
@@ -400,6 +400,18 @@ class MethodMixin:
             self.assumptions.add('hash() is an uninterpreted function of the value (equal values hash equally)')
             return self.ufun('py_hash_' + ''.join(c if c.isalnum() else '_' for c in str(t.sort())), t.sort(), INT)(t)
         raise Unsupported('hash')
+
+    def b_deepcopy(self, a, k, n, f):
+        v = a[0]
+        inner = v.val if isinstance(v, VOpt) else v
+        if isinstance(inner, VObj):
+            # a deep copy of an opaque object is ANOTHER object (identity is observable: `is`, later mutation); nothing else is known of it
+            new = VObj(self.ufun('py_deepcopy', inner.term.sort(), self.path.fresh(z3.IntSort(), 'copy_nonce').sort(), inner.term.sort())(inner.term, self.path.fresh(z3.IntSort(), 'copy_nonce')))
+            if not self.cur_pure():
+                self.path.assume(new.term != inner.term)
+                self.path.trace.append(('deepcopy', v, new))
+            return VOpt(v.none, new) if isinstance(v, VOpt) else new
+        return self.snapshot(v)
 
     def b_copy(self, a, k, n, f):
         v = a[0]
